@@ -87,7 +87,8 @@ type StepRec struct {
 	ProbeProofs [][2]uint64
 	// the Tree bucket entries that are new or changed after this step
 	TreeChanges []TreeNode
-	Call        int // index of the manager call during which the step happened (-1: opening the store)
+	NoPrevView  bool // the step before this one was not observed (TreeChanges unknown)
+	Call        int  // index of the manager call during which the step happened (-1: opening the store)
 }
 
 // A Node is a real manager over a recording store, fed from a tree.
@@ -104,6 +105,10 @@ type Node struct {
 	Call  int
 	// OnStep, if set, runs after a step was recorded (C03 flushes here)
 	OnStep func(st *StepRec)
+	// Quiet: the node is not observed between steps (no view, no probe: nothing of the store
+	// is read by the harness until the caller does it); only the diffs handed to the store
+	// are recorded
+	Quiet bool
 }
 
 // MaxHeight returns the largest height in the tree.
@@ -140,11 +145,16 @@ func OpenStore(t *chaingen.Tree, db chain.DB, base *chaingen.Node) (*chain.DBSto
 // NewNode opens a store on db (genesis, or the checkpoint base) and starts a
 // manager over the recording wrapper.
 func NewNode(t *chaingen.Tree, db chain.DB, base *chaingen.Node) (*Node, error) {
+	return NewNodeOpt(t, db, base, false)
+}
+
+// NewNodeOpt is NewNode with the Quiet switch.
+func NewNodeOpt(t *chaingen.Tree, db chain.DB, base *chaingen.Node, quiet bool) (*Node, error) {
 	inner, ts, err := OpenStore(t, db, base)
 	if err != nil {
 		return nil, err
 	}
-	n := &Node{T: t, DB: db, Inner: inner, Base: base, MaxH: MaxHeight(t) + 2, Names: NewNames(), Call: -1}
+	n := &Node{T: t, DB: db, Inner: inner, Base: base, MaxH: MaxHeight(t) + 2, Names: NewNames(), Call: -1, Quiet: quiet}
 	n.Rec = &Rec{DBStore: inner, After: n.after}
 	n.Sim = mgrsim.NewSimOver(t, inner, n.Rec, ts)
 	// the step that opening performed
@@ -176,13 +186,24 @@ func (n *Node) record(apply bool, idx int, d Diffs) {
 			st.Tip = x.Parent.Idx
 		}
 	}
+	if n.Quiet {
+		n.Steps = append(n.Steps, st)
+		if n.OnStep != nil {
+			n.OnStep(st)
+		}
+		return
+	}
 	st.View = TakeView(n.DB, n.Inner, n.MaxH)
 	{
 		var prev map[[2]uint64]types.Hash256
-		if len(n.Steps) > 0 {
+		if len(n.Steps) > 0 && n.Steps[len(n.Steps)-1].View != nil {
 			prev = n.Steps[len(n.Steps)-1].View.Tree
 		}
+		st.NoPrevView = len(n.Steps) > 0 && n.Steps[len(n.Steps)-1].View == nil
 		for k, h := range st.View.Tree {
+			if st.NoPrevView {
+				break // the step before was not observed: what changed is unknown
+			}
 			if old, ok := prev[k]; !ok || old != h {
 				st.TreeChanges = append(st.TreeChanges, TreeNode{k[0], k[1], h})
 			}
@@ -453,4 +474,129 @@ func NewNodeFromImage(t *chaingen.Tree, db chain.DB, prior []*StepRec, names *Na
 func (n *Node) DoObserved(op mgrsim.Op) mgrsim.Obs {
 	n.Call++
 	return n.Sim.Do(op)
+}
+
+// Reopen restarts the node cleanly in the middle of a history: the store is flushed,
+// the same database is opened again (NewDBStore reads the tip from it) and a new manager
+// takes over.
+func (n *Node) Reopen() error {
+	if err := n.Inner.Flush(); err != nil {
+		return err
+	}
+	inner, ts, err := chain.NewDBStore(n.DB, n.T.Env.Net, n.T.Env.Genesis, nil)
+	if err != nil {
+		return err
+	}
+	n.Inner = inner
+	n.Rec = &Rec{DBStore: inner, After: n.after, Before: n.Rec.Before}
+	n.Sim = mgrsim.NewSimOver(n.T, inner, n.Rec, ts)
+	return nil
+}
+
+func copyBlock(b types.Block) types.Block {
+	var c types.Block
+	d := types.NewBufDecoder(Enc(types.V2Block(b)))
+	(*types.V2Block)(&c).DecodeFrom(d)
+	if d.Err() != nil {
+		panic(d.Err())
+	}
+	return c
+}
+
+// scribble overwrites everything a submitted block points to.
+func scribble(bs []types.Block) {
+	for i := range bs {
+		b := &bs[i]
+		for j := range b.MinerPayouts {
+			b.MinerPayouts[j] = types.SiacoinOutput{Address: types.Address{0xBA, 0xD0}}
+		}
+		for j := range b.Transactions {
+			b.Transactions[j] = types.Transaction{ArbitraryData: [][]byte{[]byte("scribbled")}}
+		}
+		if b.V2 != nil {
+			for j := range b.V2.Transactions {
+				b.V2.Transactions[j] = types.V2Transaction{ArbitraryData: []byte("scribbled")}
+			}
+			b.V2.Commitment = types.Hash256{0xBA, 0xD1}
+			b.V2.Height = 1 << 40
+		}
+		b.ParentID, b.Nonce = types.BlockID{0xBA, 0xD2}, 42
+	}
+}
+
+// DoScribbled submits private copies of the blocks and overwrites them in place as soon as
+// the call returns: nothing the node keeps may point into the caller's memory.
+func (n *Node) DoScribbled(nodes []int) (o mgrsim.Obs) {
+	n.Call++
+	var bs []types.Block
+	for _, i := range nodes {
+		bs = append(bs, copyBlock(n.T.Nodes[i].Block))
+	}
+	func() {
+		defer func() {
+			if r := recover(); r != nil {
+				o.Panic, o.ErrText = true, fmt.Sprint("panic: ", r)
+			}
+		}()
+		if err := n.Sim.CM.AddBlocks(bs); err != nil {
+			o.Err, o.ErrText = true, err.Error()
+		}
+	}()
+	scribble(bs)
+	return
+}
+
+// DoNested submits first and, from inside the reorg callback the manager runs with its lock
+// released at the end of that call, second: an operation started in the only window a
+// manager call has.
+func (n *Node) DoNested(first, second []int) (o mgrsim.Obs) {
+	n.Call++
+	blocks := func(ids []int) (bs []types.Block) {
+		for _, i := range ids {
+			bs = append(bs, n.T.Nodes[i].Block)
+		}
+		return
+	}
+	fired := false
+	var nested any
+	cancel := n.Sim.CM.OnReorg(func(types.ChainIndex) {
+		if fired {
+			return
+		}
+		fired = true
+		// a panic here would unwind through the outer call while the manager's mutex is released
+		// (the runtime then dies on the deferred Unlock): catch it and report it after the outer call
+		defer func() {
+			if r := recover(); r != nil {
+				nested = r
+			}
+		}()
+		n.Sim.CM.AddBlocks(blocks(second))
+	})
+	defer cancel()
+	func() {
+		defer func() {
+			if r := recover(); r != nil {
+				o.Panic, o.ErrText = true, fmt.Sprint("panic: ", r)
+			}
+		}()
+		if err := n.Sim.CM.AddBlocks(blocks(first)); err != nil {
+			o.Err, o.ErrText = true, err.Error()
+		}
+	}()
+	if nested != nil {
+		o.Panic, o.ErrText = true, fmt.Sprint("panic: ", nested)
+		return
+	}
+	if !fired && !o.Panic { // no reorg happened: submit the second batch the ordinary way
+		func() {
+			defer func() {
+				if r := recover(); r != nil {
+					o.Panic, o.ErrText = true, fmt.Sprint("panic: ", r)
+				}
+			}()
+			n.Sim.CM.AddBlocks(blocks(second))
+		}()
+	}
+	return
 }
